@@ -10,7 +10,9 @@ def status_query(v):
     import mainloop
     n = 0
     for schedule in (['legit', 'control'], ['legit', 'legit', 'control'], ['legit', 'legit', 'legit', 'control', 'legit', 'control'],
-                     ['legit', 'legit', 'acquire_unknown_index', 'control']):
+                     ['legit', 'legit', 'acquire_unknown_index', 'control'],
+                     # ... while the peer rekeys the IKE_SA: the old IKE_SA (REKEYED, waiting for its DELETE) is still an IKE_SA of the table
+                     ['legit'] * 5 + ['control', 'legit', 'control', 'legit', 'control'], ['legit'] * 4 + ['control', 'legit', 'control', 'control']):
         loop = mainloop.Loop(seed=common.SEED)
         loop.rnd = random.Random(common.SEED)
         tables = []
